@@ -187,6 +187,20 @@ func (s *Fn) callFacts(c *ssa.Call, ret func(i int) Lin, res int) (out []Lin) {
 		if res == 0 || res == 1 {
 			add(le(r, s.lenOf(a[0])))
 		}
+	case "bytes.Split", "strings.Split", "bytes.SplitAfter", "strings.SplitAfter":
+		// r is the number of pieces: at least one unless the separator is empty and the input too (then 0)
+		if sep := s.lenOf(a[1]); sep.isConst() && sep.c >= 1 {
+			add(le(konst(1), r))
+		}
+	case "bytes.SplitN", "strings.SplitN", "bytes.SplitAfterN", "strings.SplitAfterN":
+		if n := s.canon(a[2]); n.isConst() && n.c != 0 {
+			if sep := s.lenOf(a[1]); sep.isConst() && sep.c >= 1 {
+				add(le(konst(1), r))
+			}
+			if n.c > 0 {
+				add(le(r, konst(n.c)))
+			}
+		}
 	case "bytes.CutPrefix", "strings.CutPrefix", "bytes.CutSuffix", "strings.CutSuffix", "bytes.TrimPrefix", "strings.TrimPrefix", "bytes.TrimSuffix", "strings.TrimSuffix", "bytes.TrimRight", "strings.TrimRight", "strings.Trim", "bytes.TrimLeftFunc", "bytes.TrimRightFunc", "strings.TrimLeftFunc", "strings.TrimRightFunc":
 		if res <= 0 {
 			add(le(r, s.lenOf(a[0])))
